@@ -41,6 +41,7 @@ ObsEq(o, x) == /\ o.alloc = x.alloc /\ o.disc = x.disc /\ o.rem = x.rem /\ o.cap
 ResEq(r, x) == /\ r.k = x.k
                /\ (r.k = "ok" /\ Has(r, "mo")) => (r.mo = x.mo /\ r.ms = x.ms /\ r.po = x.po /\ r.ps = x.ps /\ r.h = x.h)
                /\ (Has(r, "v")) => (Has(x, "v") /\ r.v = x.v)
+               /\ (Has(r, "rem")) => (Has(x, "rem") /\ r.rem = x.rem /\ r.cap = x.cap /\ r.alloc = x.alloc)
 
 \* what differs, as a short string (first difference wins)
 Diff(r, st2, x) ==
@@ -56,7 +57,7 @@ NextModel(a, op, x, m) ==
   ELSE IF x.res.k = "panic" THEN (IF Drift(a, "panic") THEN Off ELSE Off)
   ELSE IF x.res.k = "na" THEN
        \* sync::Arena has no truncate: the harness only gave up the handles
-       [m EXCEPT !.st = [m.st EXCEPT !.live = [z \in {} |-> 0], !.refs = 1,
+       [m EXCEPT !.st = [m.st EXCEPT !.live = [z \in {} |-> 0], !.refs = 1 + Len(m.st.clones),
                                      !.leaked = m.st.leaked \cup {AsLeak(m.st.live[h]) : h \in DOMAIN m.st.live}]]
   \* the implementation-level model covers shared writable sessions; private / read-only sessions are judged at the
   \* property level only (TraceSeqProp)
